@@ -270,10 +270,46 @@ func (g *gen) generate(n int) {
 				}
 			}
 		}
-		// concrete ABS needs the receiver's previous value
+		// concrete ABS: the receiver's previous value must be irrelevant (before fix 2fc8894 ITS sign was switched on).
+		// Stratified: every sign combination (receiver before, argument) for every receiver type in every repetition,
+		// so that a regression in ONE textual instantiation is always hit; plus the IEEE specials as argument.
 		for tc := 0; tc < NRECV; tc++ {
-			cold := genV(r, tc, "small")
-			g.emit(Case{Op: "ABS", TC: tc, A: []V{genV(r, tc, "small")}, Cold: &cold}, "unary")
+			mag := func() V {
+				v := genV(r, tc, "small")
+				if isF(tc) {
+					if v.fl() == 0 {
+						return VFl(tc, 2.5)
+					}
+					return VFl(tc, math.Abs(v.fl()))
+				}
+				if v.Z == 0 {
+					return VIn(tc, 3)
+				}
+				if v.Z < 0 {
+					return VIn(tc, -v.Z)
+				}
+				return v
+			}
+			withSign := func(v V, s int) V {
+				if isF(tc) {
+					return VFl(tc, float64(s)*v.fl())
+				}
+				return VIn(tc, int64(s)*v.Z)
+			}
+			for sc := -1; sc <= 1; sc++ {
+				for sa := -1; sa <= 1; sa++ {
+					cold, a := withSign(mag(), sc), withSign(mag(), sa)
+					g.emit(Case{Op: "ABS", TC: tc, A: []V{a}, Cold: &cold}, "ABS-strata")
+				}
+			}
+			if isF(tc) {
+				cold := VFl(tc, []float64{-1.5, 0, 2}[rep%3])
+				g.emit(Case{Op: "ABS", TC: tc, A: []V{VFl(tc, specials[(rep+tc)%len(specials)])}, Cold: &cold}, "unary-special")
+			} else {
+				// MinInt: |MinInt| wraps to MinInt
+				cold := VIn(tc, int64(1-rep%3))
+				g.emit(Case{Op: "ABS", TC: tc, A: []V{VIn(tc, -int64(1)<<(bitsOf(tc)-1))}, Cold: &cold}, "ABS-strata")
+			}
 		}
 		// binary
 		for _, op := range binaryOps {
